@@ -39,6 +39,8 @@ val rev : 'a1 list -> 'a1 list
 
 val map : ('a1 -> 'a2) -> 'a1 list -> 'a2 list
 
+val fold_left : ('a1 -> 'a2 -> 'a1) -> 'a2 list -> 'a1 -> 'a1
+
 val fold_right : ('a2 -> 'a1 -> 'a1) -> 'a1 -> 'a2 list -> 'a1
 
 val existsb : ('a1 -> bool) -> 'a1 list -> bool
@@ -46,6 +48,8 @@ val existsb : ('a1 -> bool) -> 'a1 list -> bool
 val forallb : ('a1 -> bool) -> 'a1 list -> bool
 
 val filter : ('a1 -> bool) -> 'a1 list -> 'a1 list
+
+val find : ('a1 -> bool) -> 'a1 list -> 'a1 option
 
 val firstn : nat -> 'a1 list -> 'a1 list
 
@@ -109,6 +113,10 @@ module Coq_Pos :
   val compare : positive -> positive -> comparison
 
   val eqb : positive -> positive -> bool
+
+  val iter_op : ('a1 -> 'a1 -> 'a1) -> positive -> 'a1 -> 'a1
+
+  val to_nat : positive -> nat
 
   val of_succ_nat : nat -> positive
  end
@@ -176,7 +184,13 @@ module Z :
 
   val eqb : z -> z -> bool
 
+  val max : z -> z -> z
+
+  val min : z -> z -> z
+
   val abs : z -> z
+
+  val to_nat : z -> nat
 
   val to_N : z -> n
 
@@ -551,3 +565,207 @@ val s_iter_all :
   res * store) * world
 
 val kv_gas_config : gascfg
+
+val be_bytes : nat -> z -> bytes
+
+val le_bytes : nat -> z -> bytes
+
+val inv_bytes : bytes -> bytes
+
+val power_of : z -> z
+
+val rank_key : z -> bytes -> bytes
+
+val missed_key : bytes -> z -> bytes
+
+val time_key : z -> bytes
+
+type validator = { v_pk : bytes; v_jailed : bool; v_status : n; v_tokens : 
+                   z; v_unstime : z }
+
+type signinfo = { si_start : z; si_offset : z; si_jailed_until : z;
+                  si_tomb : bool; si_missed : z }
+
+type pparams = { p_unstaking_time : z; p_max_validators : z; p_min_stake : 
+                 z; p_max_evidence_age : z; p_window : z; p_min_signed : 
+                 z; p_downtime_jail : z; p_slash_ds : z; p_slash_dt : 
+                 z }
+
+type aparams = { a_max_memo : z; a_sig_limit : z; a_fee_default : z;
+                 a_fee_multis : (bytes * z) list }
+
+type modaddrs = { m_fee : bytes; m_pool : bytes; m_pos : bytes; m_dao : bytes }
+
+type state = { accts : z amap; supply : z; vals : validator amap;
+               powidx : bytes amap; prevpow : z amap; prevtotal : z;
+               unstq : bytes list amap; sinfo : signinfo amap;
+               missed : bool amap; awards : z amap; burns : z amap;
+               proposer : bytes option; pkrel : bytes amap; pp : pparams;
+               ap : aparams; ma : modaddrs; acl : (bytes * bytes) list;
+               dao_owner : bytes; params_raw : bytes amap; height : z;
+               btime : z; haspk : unit amap }
+
+val set_bank : state -> z amap -> z -> state
+
+val set_vals : state -> validator amap -> state
+
+val set_powidx : state -> bytes amap -> state
+
+val set_prev : state -> z amap -> z -> state
+
+val set_unstq : state -> bytes list amap -> state
+
+val set_sign : state -> signinfo amap -> bool amap -> state
+
+val set_queues : state -> z amap -> z amap -> state
+
+val set_misc : state -> bytes option -> bytes amap -> state
+
+val set_params :
+  state -> pparams -> aparams -> (bytes * bytes) list -> bytes -> bytes amap
+  -> state
+
+val set_block : state -> z -> z -> state
+
+val bal : state -> bytes -> z
+
+val bank_send : state -> bytes -> bytes -> z -> state option
+
+val bank_mint : state -> bytes -> z -> state option
+
+val bank_burn : state -> bytes -> z -> state option
+
+val get_val : state -> bytes -> validator option
+
+val put_val : state -> bytes -> validator -> state
+
+val with_tokens : validator -> z -> validator
+
+val with_status : validator -> n -> validator
+
+val with_jailed : validator -> bool -> validator
+
+val with_unstime : validator -> z -> validator
+
+val set_staked : state -> bytes -> validator -> state
+
+val del_staked : state -> bytes -> validator -> state
+
+val burn_staked : state -> z -> state option
+
+val del_unstaking : state -> bytes -> validator -> state
+
+val force_unstake : state -> bytes -> validator -> state option
+
+type sres =
+| SOk of state
+| SErr of state
+| SPanic
+
+val slash : state -> bytes -> z -> z -> z -> sres
+
+val jail : state -> bytes -> state option
+
+val unjail : state -> bytes -> state option
+
+val min_signed_per_window : pparams -> z
+
+val handle_signature : state -> bytes -> z -> bool -> state option
+
+val double_sign_jail_end : z
+
+val handle_double_sign : state -> bytes -> z -> z -> z -> state option
+
+val reward_from_fees : state -> bytes -> state option
+
+val mint_award : state -> bytes -> z -> state
+
+val mint_awards : state -> state
+
+val burn_validators_loop : (bytes * z) list -> state -> state option
+
+type vote = { vo_addr : bytes; vo_power : z; vo_signed : bool }
+
+type evid = { ev_addr : bytes; ev_height : z; ev_time : z; ev_power : z }
+
+val fold_opt :
+  (state -> 'a1 -> state option) -> 'a1 list -> state -> state option
+
+val begin_block :
+  state -> z -> z -> bytes -> vote list -> evid list -> state option
+
+type update = bytes * z
+
+val upd_loop :
+  (bytes * bytes) list -> nat -> state -> z amap -> z -> update list ->
+  (((state * z amap) * z) * update list) option
+
+val update_tm_validators : state -> (state * update list) option
+
+val finish_unstaking : state -> bytes -> validator -> state option
+
+val unstake_one : state -> bytes -> state option
+
+val unstake_mature : state -> state option
+
+val end_block : state -> (state * update list) option
+
+type pval =
+| PVpos of n * z
+| PVauth of n * z
+| PVaddr of bytes
+| PVacl of (bytes * bytes) list
+| PVfees of z * (bytes * z) list
+| PVraw
+
+type msg =
+| MStake of bytes * bytes * z
+| MUnstake of bytes
+| MUnjail of bytes
+| MSend of bytes * bytes * z
+| MChangeParam of bytes * bytes * pval * bytes * bool
+| MDao of bytes * bytes * z * n
+| MUpgrade of bytes * z * bytes
+
+val msg_signer : msg -> bytes
+
+val msg_type : msg -> n
+
+val msg_base_fee : z -> msg -> z
+
+val msg_basic_ok : msg -> bool
+
+type hres =
+| HOk of state
+| HErr of state
+
+val owner_of : (bytes * bytes) list -> bytes -> bytes
+
+val apply_param : state -> bytes -> pval -> bytes -> state
+
+val handle : state -> msg -> hres
+
+type tx = { t_msg : msg; t_fee : z; t_memo_len : z;
+            t_attached : bytes option; t_multi_count : z;
+            t_signed_by : bytes; t_mutated : bool; t_sig_empty : bool;
+            t_in_index : bool; t_gov_fee : z }
+
+val required_fee : state -> z -> msg -> z
+
+type dres =
+| DOk of state
+| DRejected of state
+| DHandlerErr of state
+
+val ante : state -> tx -> state option
+
+val deliver_tx : state -> tx -> dres
+
+val k_award : state -> bytes -> z -> state
+
+val k_burn : state -> bytes -> z -> state
+
+val genesis_validator : state -> ((bytes * bytes) * z) -> state
+
+val init_chain :
+  state -> ((bytes * bytes) * z) list -> z -> (state * update list) option
